@@ -319,8 +319,19 @@ off_t lseek(int fd, off_t off, int whence) { return lseek64(fd, off, whence); }
 
 static void note_open(int fd, const char *path)
 {
+	char abs[8192];
+	const char *cmp = path;
+	if (target[0] && path && path[0] != '/' && getcwd(abs, 4096)) {
+		/* relative name: compare cwd/name */
+		size_t l = strlen(abs);
+		if (l + strlen(path) + 2 < sizeof(abs)) {
+			abs[l] = '/';
+			strcpy(abs + l + 1, path[0] == '.' && path[1] == '/' ? path + 2 : path);
+			cmp = abs;
+		}
+	}
 	if (fd >= 0 && fd < (int)sizeof(is_target))
-		is_target[fd] = (target[0] && path && !strcmp(path, target)) ? 1 : 0;
+		is_target[fd] = (target[0] && cmp && !strcmp(cmp, target)) ? 1 : 0;
 }
 
 int open64(const char *path, int flags, ...)
